@@ -2,4 +2,12 @@ package harness
 
 import "testing"
 
-func c04EndToEnd(t *testing.T) {}
+// c04EndToEnd: the same obligation through the engine. Histories of 3-8 small
+// flushed files whose rows carry numbers of every kind under the indexed keys,
+// merged (block ranges become hulls of three and more source ranges), then
+// queries whose subject is the prefilter: every stored row whose own partition
+// and exact values satisfy the tree (and the bloom/regex part, when present)
+// must be returned.
+func c04EndToEnd(t *testing.T) {
+	runChecks(t, "e2e", 250, 6000, genSearchCase(minMaxOpts, 8, true), runSearchProperty(judgeC01))
+}
